@@ -55,20 +55,26 @@ fn finalize(productions: Vec<Production>) -> Result<Vec<Pr>> {
 }
 
 fn variable_names(productions: &[Production]) -> Vec<String> {
-    let mut productions_vars = productions.iter().fold(vec![], |mut res, r| {
-        let variable = &r.lhs;
-        res.push(variable.clone());
-        let mut alternation_vars = r.rhs.0.iter().fold(vec![], |mut res, a| {
-            let mut factors_vars = a.0.iter().fold(vec![], |mut res, f| {
-                if let Factor::NonTerminal(n, ..) = f {
-                    res.push(n.clone());
+    // Collect the non-terminals of all factors, including those nested in groups, repetitions
+    // and optionals. Otherwise a generated helper name could coincide with a non-terminal that is
+    // only used inside such a nested construct.
+    fn collect_factor_vars(alternations: &Alternations, res: &mut Vec<String>) {
+        for a in &alternations.0 {
+            for f in &a.0 {
+                match f {
+                    Factor::NonTerminal(n, ..) => res.push(n.clone()),
+                    Factor::Group(alts) | Factor::Repeat(alts) | Factor::Optional(alts) => {
+                        collect_factor_vars(alts, res)
+                    }
+                    _ => (),
                 }
-                res
-            });
-            res.append(&mut factors_vars);
-            res
-        });
-        res.append(&mut alternation_vars);
+            }
+        }
+    }
+
+    let mut productions_vars = productions.iter().fold(vec![], |mut res, r| {
+        res.push(r.lhs.clone());
+        collect_factor_vars(&r.rhs, &mut res);
         res
     });
     productions_vars.sort();
